@@ -59,6 +59,7 @@ THEOREMS = {
         "Shroud.Lines.user_line_emitted",
         "Shroud.Lines.unprotected_line_loses_text",
         "Shroud.Lines.splicer_branches_protect_user_code",
+        "Shroud.Lines.fortran_lists_have_break_hints",
     ]
 }
 
@@ -433,7 +434,14 @@ def run(ctx):
     for s0 in lit_cases:
         reqs.append("lit %s" % common.enc(s0))
         try:
-            impl.append(common.enc(list(w._literal_lines([s0]))[0]))
+            src = [s0]
+            first = list(w._literal_lines(src))
+            second = list(w._literal_lines(src))
+            if src != [s0] or second != first:
+                # the model's `protect` is a function of the line: the caller's list must come back untouched
+                impl.append("impure:" + common.enc(second[0]))
+            else:
+                impl.append(common.enc(first[0]))
         except Exception as e:  # noqa
             impl.append("crash %s" % type(e).__name__)
     ctx.note("literal_line_cases", len(lit_cases))
@@ -505,6 +513,18 @@ def run(ctx):
         ctx.note("fortran_lines_over_132", over)
 
 
+def continued_comment(tree):
+    """(file, line number, text) of the first Fortran comment line that ends with the continuation marker: a comment
+    cannot be continued, so whatever follows it lies outside the comment"""
+    for fn, data in sorted(tree.items()):
+        if fn.endswith(".f"):
+            for ln, line in enumerate(data.decode(errors="replace").split("\n"), 1):
+                t = line.strip()
+                if t.startswith("!") and t.endswith("&") and not t.startswith("!$"):
+                    return fn, ln, line
+    return None
+
+
 def linecfg_oracle(ctx, r, thorough):
     from tools import shroudrun
     from tools.gen import libgen
@@ -513,8 +533,14 @@ def linecfg_oracle(ctx, r, thorough):
         for i in range(4 if thorough else 2):
             lib = libgen.gen_lib(r, name="ll%d" % i, language="c++", wrap={"wrap_python": True, "wrap_lua": True})
             # a function with a long argument list, so continuation lines are certain
-            lib.decls.append({"decl": "double accumulate_weighted_sum_of_values(" + ", ".join(
-                "double input_value_number_%d" % k for k in range(12)) + ")"})
+            lib.decls.append({"decl": "double accumulate_weighted_sum_of_values(const std::string & label_of_the_result, " + ", ".join(
+                "double input_value_number_%d" % k for k in range(12)) + ")",
+                # documentation text with break hints (TAB, FF) and long lines, on first and later lines
+                "doxygen": {"brief": "Accumulate the weighted sum\tof all the input values given, in order, and return it",
+                            "description": "The first line of the description is short.\n"
+                                           "The second line\tcontains a tab and is long enough that it cannot fit into a single line of the output file.\n"
+                                           "third\fline with a form feed and more words so that it also is longer than the limit of seventy-two",
+                            "return": "zero\twhen empty, otherwise the weighted sum of every one of the values that were passed to the function"}})
             trees = {}
             for tag, (cl, fl) in {"base": (72, 72), "bigC": (400, 72), "bigF": (72, 120), "smallC": (40, 72)}.items():
                 lib.options.update(C_line_length=cl, F_line_length=fl)
@@ -527,6 +553,12 @@ def linecfg_oracle(ctx, r, thorough):
                         ctx.fail("linecfg:exception", "Shroud failed with C_line_length=%d F_line_length=%d: %r" % (cl, fl, exc), {"yaml": lib.yaml()})
                         continue
                     trees[tag] = shroudrun.read_tree(d)
+                    cc = continued_comment(trees[tag])
+                    ctx.count(1)
+                    if cc:
+                        ctx.fail("linecfg:comment-continued:%s" % cc[0].replace("ll%d" % i, "<lib>"),
+                                 "%s line %d is a comment that ends with the continuation marker; what follows is outside the comment: %r" % cc,
+                                 {"yaml": lib.yaml(), "file": cc[0], "line": cc[1]})
                 finally:
                     common.rmtree(d)
                 ctx.nontrivial(("linecfg", i, tag))
@@ -553,7 +585,16 @@ def linecfg_oracle(ctx, r, thorough):
                     {"decl": "double %s_free(double %s, double %s2, int *%s_out +intent(out))" % (ln45, ln61, ln61[:60], ln61[:57])},
                     {"decl": "void %s_over(int i)" % ln45}, {"decl": "void %s_over(double d)" % ln45},
                     {"decl": "void %s_over(int i, double d, const std::string & s)" % ln45},
-                ], {"wrap_python": False, "wrap_lua": False})
+                    # a callback with several long named parameters (abstract interface statement)
+                    {"decl": "void register_the_progress_callback(void (*progress_callback_function)(double %s, double %s, int %s))" % (
+                        "fraction_of_work_completed_so_far", "estimated_seconds_remaining_now", "identifier_of_the_current_stage")},
+                    # several classes and structs of ordinary name length used from a nested namespace (USE / IMPORT lists)
+                ] + [{"decl": "class AccumulatorOfWeightedValues%d" % k, "declarations": [{"decl": "AccumulatorOfWeightedValues%d()" % k}]} for k in range(6)]
+                  + [{"decl": "struct MeasurementRecordNumber%d { int count%d; double value%d; };" % (k, k, k)} for k in range(5)]
+                  + [{"decl": "int sum_all_the_records(%s)" % ", ".join("MeasurementRecordNumber%d *r%d" % (k, k) for k in range(5))},
+                     {"decl": "namespace inner", "declarations": [
+                         {"decl": "void combine(%s)" % ", ".join("AccumulatorOfWeightedValues%d *a%d" % (k, k) for k in range(6))}]}],
+                    {"wrap_python": False, "wrap_lua": False})
                 d = common.scratch()
                 try:
                     y = shroudrun.write_yaml(d, "longnames.yaml", longlib.yaml())
@@ -610,7 +651,9 @@ def literal_oracle(ctx, r, thorough):
                 "declarations": [
                     {"decl": "int lfun(int first, int third)", "splicer": {"c": list(cl), "f": list(fl)}},
                     {"decl": "int lbuf(const std::string & first, int third)", "splicer": {"c_buf": list(cl)}},
-                    {"decl": "int lcode(const std::string & first, int third)"}],
+                    {"decl": "int lcode(const std::string & first, int third)"},
+                    # one declaration, several wrappers (default arguments): every one of them carries the user's lines
+                    {"decl": "int ldef(int first, int third = 1, int fourth = 2)", "splicer": {"c": list(cl)}}],
                 "splicer_code": {"c": {"function": {"lcode": list(cl2)}}, "f": {"function": {"lcode": list(fl)}}}}
         text = _yaml.safe_dump(desc, sort_keys=False)
         d = common.scratch()
@@ -642,6 +685,20 @@ def literal_oracle(ctx, r, thorough):
                     ctx.fail("literal:user-line-altered:" + where.split(" of ")[0],
                              "user lines supplied through %s are not emitted character for character: want %r, got %r" % (where, want, got),
                              {"yaml": text, "block": block, "want": want, "got": got})
+                if block == "function.lfun" and lang == "c":
+                    # the default-argument variants of ldef: all blocks whose name starts with function.ldef
+                    starts = [k for k, ln in enumerate(phys) if "splicer begin function.ldef" in ln]
+                    ctx.count(1)
+                    if len(starts) < 3:
+                        ctx.fail("literal:block-missing:default-argument-variants", "expected 3 C wrappers for ldef, found %d blocks" % len(starts), {"yaml": text})
+                    for k0 in starts:
+                        k1 = next(k for k in range(k0 + 1, len(phys)) if "splicer end function.ldef" in phys[k])
+                        gotv = [ln.strip() for ln in phys[k0 + 1:k1]]
+                        if gotv != want:
+                            ctx.fail("literal:user-line-altered:variant-of-one-declaration",
+                                     "user lines of one declaration-level splicer differ between the wrappers generated from it (%s): want %r, got %r" % (
+                                         phys[k0].strip(), want, gotv), {"yaml": text, "want": want, "got": gotv})
+                            break
                 ib = len(phys[b[0]]) - len(phys[b[0]].lstrip())
                 ie = len(phys[e[0]]) - len(phys[e[0]].lstrip())
                 if ib != ie:
